@@ -102,13 +102,13 @@ class VariableElimination(Inference):
                     " variables or evidence args"
                 )
             # Step 1.2: Check if elimination_order has variables which are not in the model.
-            elif any(var not in self.model.nodes() for var in elimination_order):
+            if any(var not in self.model.nodes() for var in elimination_order):
                 elimination_order = list(
                     filter(lambda t: t in self.model.nodes(), elimination_order)
                 )
 
             # Step 1.3: Check if the elimination_order has all the variables that need to be eliminated.
-            elif to_eliminate != set(elimination_order):
+            if to_eliminate != set(elimination_order):
                 raise ValueError(
                     f"Elimination order doesn't contain all the variables"
                     f"which need to be eliminated. The variables which need to"
